@@ -24,6 +24,9 @@ type Builder struct {
 	usedFC  map[types.FileContractID]bool // revised or resolved by an accepted txn
 	// ephemeral siacoin outputs created by accepted transactions
 	Eph []types.SiacoinElement
+	// EphFloor: ephemeral outputs below this index of Eph are not offered as
+	// inputs (used to keep a submitted set self-contained)
+	EphFloor int
 	// v1 contracts created by accepted transactions (revisable later in the block)
 	EphFC map[types.FileContractID]types.FileContract
 	// window ends claimed by contracts formed/revised in this builder
@@ -162,7 +165,10 @@ func (b *Builder) confirmedSC(a *Actor) []types.SiacoinElement {
 // ephSC returns the actor's unspent ephemeral outputs.
 func (b *Builder) ephSC(a *Actor) []types.SiacoinElement {
 	var out []types.SiacoinElement
-	for _, e := range b.Eph {
+	for i, e := range b.Eph {
+		if i < b.EphFloor {
+			continue
+		}
 		if e.SiacoinOutput.Address == a.Addr && !b.spentSC[e.ID] {
 			out = append(out, e)
 		}
